@@ -52,7 +52,7 @@ type optSet struct {
 	name string
 	opts rapidproto.GeneratorOptions
 	// expectations
-	noEmptyLists, disallowNil, pinned, anyTypes bool
+	noEmptyLists, disallowNil, pinned, anyTypes, hints bool
 }
 
 func optionSets() []optSet {
@@ -71,8 +71,8 @@ func optionSets() []optSet {
 		{name: "NoEmptyLists+DisallowNilMessages", opts: rapidproto.GeneratorOptions{NoEmptyLists: true, DisallowNilMessages: true}, noEmptyLists: true, disallowNil: true},
 		{name: "AnyTypes(B,Leaf)", opts: withAny, anyTypes: true},
 		// no recursive payload type and every string pinned: several NON-EMPTY Any payloads fit in the horizon on the small constant streams
-		{name: "AnyTypes(B)+FieldMaps(pin strings)", opts: rapidproto.GeneratorOptions{Resolver: protoregistry.GlobalTypes, FieldMaps: []rapidproto.FieldMapper{pin}}.WithAnyTypes(&testpb.B{}), anyTypes: true, pinned: true},
-		{name: "AnyTypes+InterfaceHint", opts: withAny.WithInterfaceHint("verif.Iface", &testpb.B{}), anyTypes: true},
+		{name: "AnyTypes(B)+FieldMaps(pin strings)", opts: rapidproto.GeneratorOptions{Resolver: protoregistry.GlobalTypes, FieldMaps: []rapidproto.FieldMapper{pin}}.WithAnyTypes(&testpb.B{}).WithInterfaceHint("verif.Iface", &testpb.B{}), anyTypes: true, pinned: true, hints: true},
+		{name: "AnyTypes+InterfaceHint", opts: withAny.WithInterfaceHint("verif.Iface", &testpb.B{}), anyTypes: true, hints: true},
 		{name: "FieldMaps(pin strings)", opts: rapidproto.GeneratorOptions{FieldMaps: []rapidproto.FieldMapper{pin}}, pinned: true},
 	}
 }
@@ -84,6 +84,10 @@ var pathRe = regexp.MustCompile(`^[a-z]+([.][a-z]+){0,2}$`)
 // validate walks the generated message (through the reference view) and returns the first problem.
 func validate(m protoreflect.Message, os optSet, depth int, insideAny bool) string {
 	md := m.Descriptor()
+	if u := m.GetUnknown(); len(u) > 0 {
+		// the generator never draws unknown fields: an Any payload that leaves some was encoded from another type
+		return fmt.Sprintf("%s carries %d bytes of unknown fields (payload of another type under this type URL?)", md.FullName(), len(u))
+	}
 	switch md.FullName() {
 	case "google.protobuf.Timestamp":
 		ts := &timestamppb.Timestamp{Seconds: m.Get(md.Fields().ByName("seconds")).Int(), Nanos: int32(m.Get(md.Fields().ByName("nanos")).Int())}
@@ -564,6 +568,9 @@ func TestC18(t *testing.T) {
 			for _, os := range oss {
 				if tg.name == "google.protobuf.Any" && !os.anyTypes {
 					continue // an Any cannot be generated without AnyTypeURLs: unsatisfiable option set, not judged
+				}
+				if tg.name == "mx.Anys" && os.anyTypes && !os.hints {
+					continue // mx.Anys.hinted accepts interface verif.Iface: without a hint for it the generator panics by design
 				}
 				// a string costs four words per rune in rapid v1.1.0: continue? (a float: all-ones continues, zero stops), rune table
 				// (low bits of the word), bit length of the index (a float: 0 -> 1 bit, ~1 -> the table's last rune), index bits.
